@@ -297,7 +297,9 @@ inline std::string renderStmt(const Plan& p, const Stmt& st, int index) {
         case T_QCYCLE: return std::string("    ") + (st.a % 2 ? "qcycD(" : "qcyc(") + I(id) + ");\n    echo(\"after qcyc\");\n";
         case T_E_DTOR_ERR: {
             std::string cls = st.a % 2 ? "BadDtorN" : "BadDtor";   // error at the top level of the destructor body / inside nested blocks
-            return "    " + cls + " bdt" + I(index) + " = new " + cls + "();\n    destroy bdt" + I(index) + ";\n    echo(\"after dtor err\");\n";
+            // released by 'destroy' (which also requests a collection) or by plain reference counting (reassignment)
+            std::string rel = st.b % 2 ? "    bdt" + I(index) + " = null;\n" : "    destroy bdt" + I(index) + ";\n";
+            return "    " + cls + " bdt" + I(index) + " = new " + cls + "();\n" + rel + "    echo(\"after dtor err\");\n    echo(\"still running\");\n";
         }
         case T_E_GENERIC_STATIC: {
             std::string ty = st.a % 2 ? "string" : "int";
